@@ -342,6 +342,36 @@ func c02Gen(g *Gen) {
 		add(4, "G:fluentd:stalled-server", &c02Scn{N: at + 2, Cap: 2, Flavor: 2, Big: 4 * 1024, Send: send, Stop: -1})
 	}
 
+	// ---- family H: the real datadog connection against a fake HTTP intake ----
+	for n := 1; n <= g.Pick(3, 5); n++ {
+		for idx := 0; idx < n; idx++ {
+			for _, o := range []int{cSendOK, cSendErr, cSendBlock} {
+				for _, stop := range []int{-1, 2 + idx, 4 + 2*idx, 3*n + 4} {
+					send := c02Fill(idx+1, 0)
+					send[idx] = o
+					add(4, "H:datadog:onefault", &c02Scn{N: n, Cap: 2, Flavor: 3, Send: send, Stop: stop, StopRev: (stop + idx) & 1, StopGap: idx % 3})
+				}
+			}
+		}
+	}
+	for i := 0; i < g.Pick(30, 600); i++ {
+		r := g.R
+		n := r.Range(1, 10)
+		s := &c02Scn{N: n, Cap: r.PickInt([]int{1, 2, 10}), Flavor: 3, Stop: -1, StopRev: r.Intn(2), StopGap: r.Intn(3)}
+		for j := 0; j < 3*n; j++ {
+			s.Send = append(s.Send, r.PickInt([]int{0, 0, 0, 0, cSendErr, cSendBlock}))
+		}
+		if r.Chance(1, 3) {
+			s.Stop = r.Range(0, 6*n+8)
+		}
+		at := 0
+		for j := 0; j < n; j++ {
+			at += r.Range(0, 4)
+			s.Push = append(s.Push, at)
+		}
+		add(4, "H:datadog:random", s)
+	}
+
 	// ---- family E: outside the connection contract: an ack read that ignores Close and its deadline ----
 	for n := 1; n <= g.Pick(2, 4); n++ {
 		ack := c02Fill(n, 0)
